@@ -231,6 +231,14 @@ pub fn run(seed: u64, count: usize, first_no: usize, out: &mut Vec<Value>) -> us
         if rng.gen_bool(0.5) {
             let d = &h.indexes[0];
             h.ops.push(Op::Add { idx: d.idx, id: 3, v: crate::gen::gen_vector(&mut rng, d.dim, &p, false) });
+            // a pending deletion of an item that exists (its mark outlives the item), and one of an absent id
+            let existing: Option<u32> = h.ops.iter().rev().find_map(|o| match o {
+                Op::Add { idx, id, .. } if *idx == d.idx && *id != 3 => Some(*id),
+                _ => None,
+            });
+            if let Some(id) = existing {
+                h.ops.push(Op::Del { idx: d.idx, id });
+            }
             h.ops.push(Op::Del { idx: d.idx, id: 1 });
             h.ops.push(Op::Commit);
         }
